@@ -94,3 +94,24 @@ def rename_updates_ranges(new: str) -> bool:
     ok = table.name == new2 and r1.table_name == new2 and r1.crange == (0, 0, 1, 1) and r2.table_name == "zz" and r2.crange == (1, 1, 2, 2)
     found = table.get_named_ranges(table_name=new2)
     return done(ok and len(found) == 1 and found[0].name == "rng_a")
+
+
+def nr_read_is_pure(bx: int, by: int, x: int, y: int) -> bool:
+    """
+    pre: 0 <= bx <= 3 and 0 <= by <= 3 and 0 <= x <= 2 and 0 <= y <= 2
+    post: _
+    """
+    # wrapping an existing named range (as every lookup does) never rewrites it, also when its stored
+    # base cell is not the first cell of the range (files written by office suites)
+    from odfdo.utils.coordinates import digit_to_alpha
+    rng = "$t1.$" + digit_to_alpha(x) + "$" + str(y + 1) + ":.$" + digit_to_alpha(x + 1) + "$" + str(y + 2)
+    base = "$t1.$" + digit_to_alpha(bx) + "$" + str(by + 1)
+    node = Element.make_etree_element("table:named-range")
+    T = "{urn:oasis:names:tc:opendocument:xmlns:table:1.0}"
+    node.set(T + "name", "rng")
+    node.set(T + "base-cell-address", base)
+    node.set(T + "cell-range-address", rng)
+    snap = S.canon(node)
+    nr = Element.from_tag(node)
+    ok = type(nr) is NamedRange and nr.table_name == "t1" and nr.crange == (x, y, x + 1, y + 1) and nr.name == "rng"
+    return done(ok and S.canon(node) == snap)
